@@ -44,24 +44,29 @@ theorem serveLine_dead (m : Model) (c : Conn) (e : EndCause) (h : c.ended = some
   unfold serveLine Conn.alive
   simp [h]
 
-theorem serveLine_ok (m : Model) (c : Conn) (hc : c.ended = none) (l : Bytes) (s t : Nat) (o : Orc) (b : Bytes)
+theorem serveLine_ok (m : Model) (c : Conn) (hc : c.ended = none) (l : Bytes) (hl : l.length ≤ c.limit) (s t : Nat) (o : Orc) (b : Bytes)
     (hmsg : decodeLine l = .msg b) (ts' : TState) (st' : SrvState) (reply : Option Server.Resp)
     (hh : vecuHandleSE allOn m c.ts ⟨s, t, b, o⟩ = (ts', .ok st' reply)) :
     serveLine m c l s t o = ({ c with ts := ts', served := c.served + 1 }, lineOf reply) := by
   unfold serveLine
-  simp only [Conn.alive, hc, Option.isNone_none, Bool.not_true, Bool.false_eq_true, ↓reduceIte, hmsg, hh]
+  simp only [Conn.alive, hc, Option.isNone_none, Bool.not_true, Bool.false_eq_true, ↓reduceIte, hmsg, hh, Nat.not_lt.mpr hl]
 
-theorem serveLine_crash (m : Model) (c : Conn) (hc : c.ended = none) (l : Bytes) (s t : Nat) (o : Orc) (b : Bytes)
+theorem serveLine_crash (m : Model) (c : Conn) (hc : c.ended = none) (l : Bytes) (hl : l.length ≤ c.limit) (s t : Nat) (o : Orc) (b : Bytes)
     (hmsg : decodeLine l = .msg b) (ts' : TState) (cr : Crash)
     (hh : vecuHandleSE allOn m c.ts ⟨s, t, b, o⟩ = (ts', .crash cr)) :
     serveLine m c l s t o = ({ c with ts := ts', ended := some (.raised cr) }, []) := by
   unfold serveLine
-  simp only [Conn.alive, hc, Option.isNone_none, Bool.not_true, Bool.false_eq_true, ↓reduceIte, hmsg, hh]
+  simp only [Conn.alive, hc, Option.isNone_none, Bool.not_true, Bool.false_eq_true, ↓reduceIte, hmsg, hh, Nat.not_lt.mpr hl]
 
-theorem serveLine_bad (m : Model) (c : Conn) (hc : c.ended = none) (l : Bytes) (s t : Nat) (o : Orc)
+theorem serveLine_bad (m : Model) (c : Conn) (hc : c.ended = none) (l : Bytes) (hl : l.length ≤ c.limit) (s t : Nat) (o : Orc)
     (hbad : decodeLine l = .bad) : serveLine m c l s t o = ({ c with ended := some .badLine }, []) := by
   unfold serveLine
-  simp only [Conn.alive, hc, Option.isNone_none, Bool.not_true, Bool.false_eq_true, ↓reduceIte, hbad]
+  simp only [Conn.alive, hc, Option.isNone_none, Bool.not_true, Bool.false_eq_true, ↓reduceIte, hbad, Nat.not_lt.mpr hl]
+
+theorem serveLine_long (m : Model) (c : Conn) (hc : c.ended = none) (l : Bytes) (hl : l.length > c.limit) (s t : Nat) (o : Orc) :
+    serveLine m c l s t o = ({ c with ended := some .tooLong }, []) := by
+  unfold serveLine
+  simp only [Conn.alive, hc, Option.isNone_none, Bool.not_true, Bool.false_eq_true, ↓reduceIte, hl]
 
 theorem stepConn_dead (m : Model) (c : Conn) (e : EndCause) (h : c.ended = some e) (ev : Event) :
     stepConn m c ev = (c, []) := by
